@@ -82,8 +82,15 @@ def build_impl(repo, need_binary=False, log=None):
                 raise InfraError("the calculator binary does not build\n" + out[-3000:])
 
 
+_TABLES_LOCK = None
+
+
 def dump_tables(repo):
-    """harness dump -> work/dump.json -> Calc/Generated/*.lean (rewritten only on change)"""
+    """harness dump -> work/dump-<key>.json -> Calc/Generated/*.lean (rewritten only on change).
+    The generated tables (and the model driver built from them) are shared by every check process, so a process
+    holds work/.tables.lock shared from here to its exit while the tables are those of its tree, and exclusively
+    while it rewrites them and relinks the driver: checks of different trees (./selftest next to ./check) take turns."""
+    global _TABLES_LOCK
     sys.path.insert(0, VERIF)
     import gen_tables
     with Lock(".build.lock"):
@@ -93,11 +100,30 @@ def dump_tables(repo):
         if rc != 0:
             raise InfraError("harness dump failed\n" + o[-2000:])
         d = json.load(open(out))
-        try:
-            changed = gen_tables.generate(d, os.path.join(LEAN, "Calc", "Generated"))
-        except (AssertionError, SystemExit, KeyError) as e:
-            raise InfraError("the tables of the tree no longer fit the model's types: %s" % e)
-        return d, changed
+    outdir = os.path.join(LEAN, "Calc", "Generated")
+    if _TABLES_LOCK is None:
+        os.makedirs(WORK, exist_ok=True)
+        _TABLES_LOCK = open(os.path.join(WORK, ".tables.lock"), "a+")
+    changed = []
+    try:
+        while True:
+            fcntl.flock(_TABLES_LOCK, fcntl.LOCK_SH)
+            gen_tables.DRY = True
+            try:
+                pending = gen_tables.generate(d, outdir)
+            finally:
+                gen_tables.DRY = False
+            if not pending and os.path.exists(driver_bin()):
+                return d, changed
+            fcntl.flock(_TABLES_LOCK, fcntl.LOCK_UN)
+            fcntl.flock(_TABLES_LOCK, fcntl.LOCK_EX)
+            changed += gen_tables.generate(d, outdir)
+            rc, o = lake_build(["calcdriver"])
+            if rc != 0:
+                raise InfraError("the model driver does not build with the tables of this tree\n" + o[-3000:])
+            fcntl.flock(_TABLES_LOCK, fcntl.LOCK_UN)
+    except (AssertionError, SystemExit, KeyError) as e:
+        raise InfraError("the tables of the tree no longer fit the model's types: %s" % e)
 
 
 def lake_build(targets, timeout=3600):
